@@ -312,11 +312,19 @@ def drive_c(rec, quick):
     # modules are created and deleted along the way: an address handed out again to a module of another dimension may not bring back
     # anything remembered about the module that lived there before
     Ws = {}
-    for p in ([-1, 3, 5, 9, 12345] if quick else [-1, 1, 3, 5, 7, 9, 17, 31, 12345, -77, (1 << 40) + 1]):
-        for n in dims + dims[::-1]:
+    seq = [(p, n) for p in ([-1, 3, 5, 9, 12345] if quick else [-1, 1, 3, 5, 7, 9, 17, 31, 12345, -77, (1 << 40) + 1]) for n in dims + dims[::-1]]
+    # one dimension, exponents that differ by N and 2N back to back (p, p+N, p, p+2N, p-N ...): whatever is remembered about the last
+    # exponent must tell them apart
+    for n in ([256, 4096] if quick else [128, 256, 1024, 2048, 4096]):
+        for p0 in (5, 3, -7):
+            seq += [(q, n) for q in (p0, p0 + n, p0, p0 + 2 * n, p0 - n, p0 + n, p0 + 3 * n, p0)]
+    for (p, n) in seq:
+        if True:
             for old_n in list(Ws):
-                Ws.pop(old_n).close()
-            Ws[n] = Wrappers(L, n)
+                if old_n != n:
+                    Ws.pop(old_n).close()
+            if n not in Ws:
+                Ws[n] = Wrappers(L, n)
             probe = np.arange(1, n + 1, dtype=np.int64)
             for kind in ("aut", "rot", "mxp"):
                 groups = {}
